@@ -563,7 +563,16 @@ def tsp_check(spec, root):
     n = inst.n_cities
     outs = []
     for _ in range(2):
-        alg = (TSPEA1p1revn if spec["alg"] == "ea" else TSPFEA1p1revn)(inst)
+        if spec["alg"] == "rls":    # the setup of examples/tsp_rls.py
+            from moptipy.algorithms.so.rls import RLS
+            from moptipy.operators.permutations.op0_shuffle import (
+                Op0Shuffle,
+            )
+            from moptipy.operators.permutations.op1_swapn import Op1SwapN
+            alg = RLS(Op0Shuffle(Permutations.standard(n)), Op1SwapN())
+        else:
+            alg = (TSPEA1p1revn if spec["alg"] == "ea"
+                   else TSPFEA1p1revn)(inst)
         ex = Execution().set_solution_space(Permutations.standard(n)) \
             .set_algorithm(alg).set_objective(TourLength(inst))
         outs.append(execute(ex, spec["seed"], spec["budget"], None))
@@ -1076,7 +1085,8 @@ def setup_name(spec):
     if f == "bp":
         return f"{spec['alg']}/{spec['obj']}/ibf{spec['enc']}"
     if f == "tsp":
-        return "tsp_ea1p1_revn" if spec["alg"] == "ea" else "tsp_fea1p1_revn"
+        return {"ea": "tsp_ea1p1_revn", "fea": "tsp_fea1p1_revn"}.get(
+            spec["alg"], "tsp_rls")
     if f == "instgen":
         return "cmaes"
     if f == "dyn_raw":
@@ -1363,6 +1373,12 @@ def product(ctx):
         jobs.append([{"family": "tsp", "alg": alg, "inst": inst,
                       "seed": s, "budget": b}
                      for alg in ("ea", "fea")
+                     for s in seeds_for(inst) for b in budgets])
+    # asymmetric instances (the EA / FEA are for symmetric ones only): the
+    # randomized local search of examples/tsp_rls.py
+    for inst in (("br17", "ftv33") if q else ("br17", "ftv33", "p43")):
+        jobs.append([{"family": "tsp", "alg": "rls", "inst": inst,
+                      "seed": s, "budget": b}
                      for s in seeds_for(inst) for b in budgets])
     for inst in (BP_Q if q else BP_T):
         for obj in OBJ_NAMES:
